@@ -296,6 +296,7 @@ type c08Prog struct {
 	HasHook   bool
 	ReaderFrom bool     // the underlying writer implements io.ReaderFrom
 	NoFlusher  bool     // the underlying writer is no http.Flusher
+	Direct     bool     // the (single) handler is mounted as a plain http.Handler: rux.HandlerFunc(h).ServeHTTP, no router
 	Redispatch []respOp // what the handler of /y does when the (single) handler re-dispatches
 }
 
@@ -322,6 +323,9 @@ func (p c08Prog) describe() any {
 	}
 	if p.NoFlusher {
 		hs = append(hs, "underlying writer is no http.Flusher")
+	}
+	if p.Direct {
+		hs = append(hs, "the handler is used as a plain http.Handler (rux.HandlerFunc.ServeHTTP), without a router")
 	}
 	return map[string]any{"method": p.Method, "handlers": hs, "writer_fault": fmt.Sprintf("write #%d accepts %d bytes then errors (0 = none)", p.FailAt, p.Short)}
 }
@@ -488,7 +492,9 @@ func runC08(e *Env) {
 			i := r.IntN(len(p.Pre[0]) + 1)
 			p.Pre[0] = append(p.Pre[0][:i:i], append([]respOp{{Kind: "redispatch"}}, p.Pre[0][i:]...)...)
 		}
-		if chance(r, 1, 3) {
+		if nh == 1 && p.Redispatch == nil && chance(r, 1, 4) {
+			p.Direct = true
+		} else if chance(r, 1, 3) {
 			p.HasHook = true
 			switch r.IntN(3) {
 			case 1:
@@ -615,7 +621,12 @@ func c08Check(t *T, p c08Prog) {
 		t.Count("programs.no_flusher_writer", 1)
 		w = RecNF{rec}
 	}
-	if pv, panicked := catch(func() { r.ServeHTTP(w, NewReq(p.Method, "/x")) }); panicked {
+	var entry http.Handler = r
+	if p.Direct {
+		t.Count("programs.handlerfunc_as_http_handler", 1)
+		entry = mk(0) // rux.HandlerFunc implements http.Handler
+	}
+	if pv, panicked := catch(func() { entry.ServeHTTP(w, NewReq(p.Method, "/x")) }); panicked {
 		t.Fail("servehttp-panic", "program %v panicked: %v", p.describe(), pv)
 		return
 	}
